@@ -100,6 +100,11 @@ def optimize_prec_assignment(model: MPS,
                         for _ in range(int(torch.round(w_theta_alpha_array_tmp[i] * n_channels))):
                             w_theta_alpha_array_tmp[i] -= (1. / layer.w_mps_quantizer.theta_alpha.shape[1])
                             w_theta_alpha_array_tmp[j] += (1. / layer.w_mps_quantizer.theta_alpha.shape[1])
+                            # price exactly the coefficients the layer will end up with (whole channels
+                            # over n_channels): the running float updates drift, and a drifted value
+                            # just below a tile boundary looks cheaper than the real configuration
+                            w_theta_alpha_array_tmp[i] = torch.round(w_theta_alpha_array_tmp[i] * n_channels) / n_channels
+                            w_theta_alpha_array_tmp[j] = torch.round(w_theta_alpha_array_tmp[j] * n_channels) / n_channels
                             # `_compute_cost` expects the coefficients in the original order of the precisions
                             cost_tmp = _compute_cost(model, layer, [w_theta_alpha_array_tmp[k] for k in inverse_indexes], cost_fn_map, lname, node)
                             if cost_tmp < best_cost:
@@ -128,6 +133,11 @@ def optimize_prec_assignment(model: MPS,
                         for _ in range(int(torch.round(w_theta_alpha_array_tmp[i] * n_channels))):
                             w_theta_alpha_array_tmp[i] -= (1. / layer.w_mps_quantizer.theta_alpha.shape[1])
                             w_theta_alpha_array_tmp[j] += (1. / layer.w_mps_quantizer.theta_alpha.shape[1])
+                            # price exactly the coefficients the layer will end up with (whole channels
+                            # over n_channels): the running float updates drift, and a drifted value
+                            # just below a tile boundary looks cheaper than the real configuration
+                            w_theta_alpha_array_tmp[i] = torch.round(w_theta_alpha_array_tmp[i] * n_channels) / n_channels
+                            w_theta_alpha_array_tmp[j] = torch.round(w_theta_alpha_array_tmp[j] * n_channels) / n_channels
                             # `_compute_cost` expects the coefficients in the original order of the precisions
                             cost_tmp = _compute_cost(model, layer, [w_theta_alpha_array_tmp[k] for k in inverse_indexes], cost_fn_map, lname, node)
                             if cost_tmp < best_cost:
